@@ -604,6 +604,10 @@ func (w *World) onAcceptRaw(conn net.Conn) {
 	key := w.rawKeys[id]
 	rt := w.sessions[key]
 	w.mu.Unlock()
+	if key != "" && w.closeRT != nil {
+		w.closeRT.setEnd(key+"/server", conn)
+		return
+	}
 	if key == "" || rt == nil {
 		w.violate(w.Spec.Property, "accept-of-unknown-session", "Mux.Accept returned session %s from %v which no client dialled", id, conn.RemoteAddr())
 		conn.Close()
